@@ -224,7 +224,7 @@ def gen_hunk(rng, max_lines=8, start=None):
 
 
 FILE_KINDS = ["modified", "added", "deleted", "renamed", "renamed_changed", "copied", "mode_only", "mode_changed",
-              "binary", "binary_added", "submodule", "empty_added"]
+              "binary", "binary_added", "submodule", "empty_added", "binary_noindex"]
 
 
 def tabbed(name):
@@ -289,6 +289,11 @@ def gen_file(rng, kind=None, prefixes=("a/", "b/"), ending=None):
     elif kind == "binary_added":
         f["old"] = "/dev/null"
         L += [f"diff --git {a}{p1} {b}{p1}", "new file mode 100644", "index 0000000..2222222", f"Binary files /dev/null and {b}{p1} differ"]
+    elif kind == "binary_noindex":
+        # `git diff --no-index old new`: the two paths differ, there are no ---/+++ lines: the names of the previous
+        # section must not survive (delta shows the `Binary files` line itself)
+        f["new"] = p2
+        L += [f"diff --git {a}{p1} {b}{p2}", "index 1111111..2222222 100644", f"Binary files {a}{p1} and {b}{p2} differ"]
     elif kind == "submodule":
         L += [f"diff --git {a}{p1} {b}{p1}", "index 1111111..2222222 160000", f"--- {a}{p1}", f"+++ {b}{p1}",
               "@@ -1 +1 @@", "-Subproject commit " + HASH, "+Subproject commit " + HASH[::-1]]
@@ -321,6 +326,8 @@ def gen_git_diff(rng, nfiles=None, with_commit=None, kinds=None):
         lines += gen_commit(rng)
     prefixes = rng.choice([("a/", "b/")] * 4 + [("i/", "w/"), ("c/", "w/"), ("o/", "w/"), ("", "")])
     for i in range(nfiles or rng.randint(1, 4)):
+        if i and rng.random() < 0.15:          # `git log -p`: the next commit starts here
+            lines += gen_commit(rng)
         f = gen_file(rng, kind=(kinds[i] if kinds else None), prefixes=prefixes)
         f["first_line"] = len(lines)
         lines += f["lines"]
